@@ -37,7 +37,7 @@ class MyErr(Exception):
 
 
 def make_harness(max_events, max_depth, roots=1, allow_gen=True, allow_cancel=True, allow_raise=True, allow_stop=True,
-                 allow_nested_complete=True, max_ticks=30):
+                 allow_nested_complete=True, max_ticks=30, two_generators=False):
     def harness(g):
         log = []            # ('h', name, 'hi'|'lo'|'gen2') / ('complete', name) / ('exc', name)
         info = {}           # name -> dict(parent, depth, cancelled, complete, obj)
@@ -108,6 +108,20 @@ def make_harness(max_events, max_depth, roots=1, allow_gen=True, allow_cancel=Tr
             @handler('node', priority=0)
             def lo(self, event, name):
                 log.append(('h', name, 'lo'))
+                rec = info[name]
+                if two_generators and allow_gen and rec['depth'] < max_depth and g.flag('logen_%s' % name):
+                    # a second generator handler of the same event, longer than the first
+                    rec['kind2'] = 'gen'
+
+                    def gen2():
+                        yield None
+                        yield None
+                        yield None
+                        log.append(('h', name, 'lo-gen-end'))
+                        if count['n'] < max_events:
+                            new_event(self, '%s.l0' % name, name, rec['depth'] + 1)
+                            info['%s.l0' % name]['from_gen'] = True
+                    return gen2()
 
             @handler('node_complete', channel='*')
             def done(self, event, e, value):
@@ -188,6 +202,7 @@ def canaries():
     return [
         ('effects-not-incremented', 'tree', lambda: mutate(M.Manager, '_fire', 'self._currently_handling.effects += 1', 'pass'), ['complete-too-early', 'complete-twice']),
         ('complete-at-first-zero-only-root', 'tree', lambda: mutate(M.Manager, '_eventDone', 'if event.effects > 0:', 'if event.effects > 1:'), None),
+        ('only-first-generator-counted', 'two-generator-handlers', lambda: mutate(M.Manager, '_dispatcher', 'event.waitingHandlers += 1\n                event.value.promise = True', 'event.waitingHandlers += 0 if event.value.promise else 1\n                event.value.promise = True'), None),
         ('cause-not-inherited', 'tree', lambda: mutate(M.Manager, '_fire', 'event.cause = self._currently_handling', 'event.cause = self._currently_handling.cause'), None),
     ]
 
@@ -200,6 +215,9 @@ def parts(tier):
                  encoded=ENC[:3], budget_s=70),
             Part('tree-generators', make_harness(max_events=4, max_depth=2, allow_gen=True, allow_stop=False, allow_nested_complete=False),
                  bounds={'max_events': 4, 'max_depth': 2, 'roots': 1, 'child_kinds': ['normal', 'cancelled'], 'ends': ['ok', 'raise'], 'generators': True},
+                 encoded=ENC, budget_s=70),
+            Part('two-generator-handlers', make_harness(max_events=3, max_depth=1, allow_gen=True, allow_stop=False, allow_nested_complete=False, allow_cancel=False, two_generators=True),
+                 bounds={'max_events': 3, 'max_depth': 1, 'roots': 1, 'generators': 'both handlers of an event may be generators of different length', 'ends': ['ok', 'raise']},
                  encoded=ENC, budget_s=70),
         ]
     return [
